@@ -279,6 +279,10 @@ def run(tier, seed, replay=None):
     n_st = staleprobe.run_block(V, random.Random(seed + 17), torch, torchtt, "reshape / permute / to_qtt", ["cores"], 4 if tier == "quick" else 40, ex_t, muts, N=[4, 2, 8])
     n_st += staleprobe.run_block(V, random.Random(seed + 18), torch, torchtt, "reshape / to_qtt of an operator", ["ttm"], 3 if tier == "quick" else 30, ex_m, muts, N=[4, 2])
     dist["read-mutate-read probe: read-outs compared"] = n_st
+    import extremes
+    extremes.run(V, random.Random(seed + 5), torch, torchtt, [("reshape", lambda x_: torchtt.reshape(x_, [2, 3, 6, 6], 1e-6), False, None),
+                 ("permute", lambda x_: torchtt.permute(x_, [2, 0, 1], 1e-6), False, lambda a_: a_.transpose(2, 0, 1)),
+                 ("to_qtt(mode_size=6)", lambda x_: torchtt.reshape(x_, [36, 6], 1e-7).to_qtt(1e-6, 6), False, None)], dist, "reshape / permute / to_qtt")
     nviol = V.finish()
     cov = proofcheck.coverage(PID, obl, evaluations=n, distinct_nontrivial=len(dist) + n_coq,
         rule=("reshape of tensors (random ordered factorisations / merges of 6..64 elements with singleton modes anywhere) and operators, permute of tensors and operators (random "
